@@ -197,6 +197,17 @@ def load_known_findings(pid):
 # context of one check run
 
 
+IDENT_KEYS = ("program", "source", "part", "insn", "parts", "construct", "position", "origin", "column", "layout", "sp", "spelling", "variant", "kind", "history", "event", "behaviour", "text", "case", "routine", "items", "name", "input", "k", "instance")
+
+
+def case_ident(case):
+    """Identity of the input of a reported case (what was compiled / parsed / run), without the observed values."""
+    d = {k: case[k] for k in IDENT_KEYS if k in case}
+    if not d:
+        d = {k: v for k, v in case.items() if k not in ("first_bad", "n_bad_states", "explained_by", "triggered_rules", "errors", "static", "returned_text_tail", "unsequenced_or_leaked", "detail", "why", "meta", "observed", "fresh")}
+    return hashlib.sha256(json.dumps(d, sort_keys=True, default=str).encode()).hexdigest()[:14]
+
+
 def stable_hash(obj):
     return hashlib.sha256(json.dumps(obj, sort_keys=True, default=str).encode()).hexdigest()[:16]
 
@@ -210,6 +221,7 @@ class Ctx:
         self.t0 = time.time()
         self.known = load_known_findings(pid)
         self.known_hits = {}  # finding id -> [count, first description]
+        self.known_cases = []  # (finding ids, input identity, case, what)
         self.violations = []  # replay paths
         self.n_violation_cases = 0
         self.cov = {}
@@ -239,6 +251,9 @@ class Ctx:
                 for f in finding_ids:
                     h = self.known_hits.setdefault(f, [0, what or json.dumps(case, default=str)[:200]])
                     h[0] += 1
+                # the case is only *provisionally* excused: finish() compares the inputs on which each finding
+                # reproduced with the committed footprint of that finding
+                self.known_cases.append((tuple(sorted(finding_ids)), case_ident(case), case, what))
                 return False
             case = dict(case)
             case["explained_by_unlisted_rules"] = missing
@@ -261,10 +276,59 @@ class Ctx:
             json.dump(case, f, indent=1, sort_keys=True, default=str)
         return path
 
+    # ---- footprint of the known findings
+    def check_footprint(self):
+        """A known finding is identified by the inputs on which it fails: the committed footprint lists, per finding,
+        the inputs of this check's space on which it reproduced when the finding was recorded.  The same rule
+        'explaining' a failure on another input means the defect reaches further than recorded (or something else
+        broke that happens to look alike): that is a violation, not a known finding."""
+        path = os.path.join(VERIF, "baselines", "footprint_%s_%s.json" % (self.pid, self.tier))
+        now = {}
+        for fids, ident, _case, _what in self.known_cases:
+            now.setdefault("+".join(fids), set()).add(ident)
+        if os.environ.get("VERIF_MAKE_BASELINE") == "1":
+            if os.path.realpath(REPO) != "/repo":
+                raise HarnessError("baselines are only written from runs against /repo")
+            os.makedirs(os.path.dirname(path), exist_ok=True)
+            with open(path, "w") as f:
+                json.dump({k: sorted(v) for k, v in sorted(now.items())}, f, indent=0)
+            self.log("footprint of known findings written: %s" % {k: len(v) for k, v in sorted(now.items())})
+        if not self.known_cases and not os.path.exists(path):
+            return 0
+        if not os.path.exists(path):
+            if self.tier == "quick":
+                raise HarnessError("missing footprint %s (run once with VERIF_MAKE_BASELINE=1)" % path)
+            # no footprint was recorded for this tier: the findings are identified by their rule only
+            self.cov["known_finding_footprint_recorded"] = False
+            return 0
+        self.cov["known_finding_footprint_recorded"] = True
+        base = {k: set(v) for k, v in json.load(open(path)).items()}
+        n_new = 0
+        for fids, ident, case, what in self.known_cases:
+            k = "+".join(fids)
+            if ident in base.get(k, ()):
+                continue
+            n_new += 1
+            for f in fids:
+                self.known_hits[f][0] -= 1
+            case = dict(case)
+            case["known_finding_on_new_input"] = list(fids)
+            self.n_violation_cases += 1
+            if len(self.violations) < self.max_violation_lines:
+                rp = self.write_replay(case)
+                self.violations.append(rp)
+                print("VIOLATION property=%s replay=%s" % (self.pid, rp), flush=True)
+                print("  fails like %s but on an input outside the recorded footprint of that finding: %s" % (k, (what or "")[:300]), flush=True)
+        for f in [f for f, h in self.known_hits.items() if h[0] <= 0]:
+            del self.known_hits[f]
+        return n_new
+
     # ---- finish
     def finish(self, coverage, assumptions=None):
+        n_new_inputs = self.check_footprint()
         cov = dict(self.cov)
         cov.update(coverage)
+        cov["known_finding_cases_outside_recorded_footprint"] = n_new_inputs
         cov.setdefault("samples", self.samples or [{"note": "no sample recorded"}])
         if self.known_hits:
             cov["known_findings_reproduced"] = {k: v[0] for k, v in sorted(self.known_hits.items())}
